@@ -269,4 +269,73 @@ theorem example345_not_small : (tstUpd 0 (rot0 (⟨1, 3, 4, 2, 0, 2⟩ : M6 ℝ)
   · simp only [Bool.false_eq_true, if_false]; rw [lt_false_iff]; norm_num
   · simp only [if_true]; rw [le_false_iff]; norm_num
 
+/-! ### the dropped entries are the sub-diagonal entries left in `e[0]`, `e[1]` at the end of the run -/
+
+theorem tstUpd_e (l : Nat) (st : QL ℝ) : (tstUpd l st).e0 = st.e0 ∧ (tstUpd l st).e1 = st.e1 := by
+  unfold tstUpd; split_ifs <;> exact ⟨rfl, rfl⟩
+
+theorem sweep12_e0 (st : QL ℝ) : (sweep 1 2 st).e0 = st.e0 := by
+  rw [sweep12_eq]
+  show (innerStep 1 (initSweep 2 (shift 1 st))).st.e0 = st.e0
+  rw [innerStep1_st]
+  show (shift 1 st).e0 = st.e0
+  rw [shift1_eq]
+
+theorem qlLoop12_e0 (fuel : Nat) (st st' : QL ℝ) (hq : qlLoop fuel 1 2 st = .ok st') : st'.e0 = st.e0 := by
+  induction fuel generalizing st with
+  | zero => unfold qlLoop at hq; exact absurd hq (by simp)
+  | succ fuel ih =>
+    unfold qlLoop at hq
+    dsimp only at hq
+    split_ifs at hq
+    · injection hq with hq; rw [← hq]; exact sweep12_e0 st
+    · rw [ih _ hq]; exact sweep12_e0 st
+
+/-- rows 1 and 2 do not touch `e[0]` -/
+theorem rowStep_e0 (l : Nat) (hl : 1 ≤ l) (st st' : QL ℝ) (h : rowStep l st = .ok st') : st'.e0 = st.e0 := by
+  unfold rowStep at h
+  dsimp only at h
+  rw [tstUpd_def] at h
+  have u0 := (tstUpd_e l st).1
+  generalize tstUpd l st = st1 at *
+  obtain ⟨f1, f2, _⟩ := findSmall_spec st1 (3 - l) l
+  generalize st1.findSmall l (3 - l) = mm at h f1 f2
+  split_ifs at h with h3 hne
+  · split at h
+    · rename_i st2 hq
+      injection h with h
+      have h3' : mm ≠ 3 := by simpa using h3
+      have hne' : mm ≠ l := by simpa using hne
+      have hl1 : l = 1 := by omega
+      have hm2 : mm = 2 := by omega
+      subst hl1; subst hm2
+      rw [← h, setD_e0, qlLoop12_e0 30 st1 st2 hq, u0]
+    · exact absurd h (by simp)
+  · injection h with h
+    rw [← h, setD_e0, u0]
+
+/-- row 2 does not touch `e[1]` -/
+theorem rowStep2_e1 (st st' : QL ℝ) (h : rowStep 2 st = .ok st') : st'.e1 = st.e1 := by
+  unfold rowStep at h
+  dsimp only at h
+  rw [tstUpd_def] at h
+  have u1 := (tstUpd_e 2 st).2
+  generalize tstUpd 2 st = st1 at *
+  obtain ⟨f1, f2, _⟩ := findSmall_spec st1 (3 - 2) 2
+  generalize st1.findSmall 2 (3 - 2) = mm at h f1 f2
+  split_ifs at h with h3 hne
+  · have h3' : mm ≠ 3 := by simpa using h3
+    have hne' : mm ≠ 2 := by simpa using hne
+    omega
+  · injection h with h
+    rw [← h, setD_e1, u1]
+
+theorem DiagRun.eps1_eq {m : M6 ℝ} {d : Eig12 ℝ} (r : DiagRun m d) : r.eps1 = r.st3.e0 := by
+  unfold DiagRun.eps1
+  rw [rowStep_e0 2 (by omega) _ _ r.h3, rowStep_e0 1 (by omega) _ _ r.h2]
+
+theorem DiagRun.eps2_eq {m : M6 ℝ} {d : Eig12 ℝ} (r : DiagRun m d) : r.eps2 = r.st3.e1 := by
+  unfold DiagRun.eps2
+  rw [rowStep2_e1 _ _ r.h3]
+
 end Refine.Model.Matrix
